@@ -46,24 +46,30 @@ func (l *DNSNameHyphenInSLD) CheckApplies(c *x509.Certificate) bool {
 }
 
 func (l *DNSNameHyphenInSLD) Execute(c *x509.Certificate) *lint.LintResult {
+	// Names are judged as a set: an unparsable name only makes the result NA
+	// when no other name has a finding, wherever it sits in the list.
+	unparsable := false
 	if c.Subject.CommonName != "" && !util.CommonNameIsIP(c) {
 		domainInfo := c.GetParsedSubjectCommonName(false)
 		if domainInfo.ParseError != nil {
-			return &lint.LintResult{Status: lint.NA}
-		}
-		if strings.HasPrefix(domainInfo.ParsedDomain.SLD, "-") || strings.HasSuffix(domainInfo.ParsedDomain.SLD, "-") {
+			unparsable = true
+		} else if strings.HasPrefix(domainInfo.ParsedDomain.SLD, "-") || strings.HasSuffix(domainInfo.ParsedDomain.SLD, "-") {
 			return &lint.LintResult{Status: lint.Error}
 		}
 	}
 	parsedSANDNSNames := c.GetParsedDNSNames(false)
 	for i := range c.GetParsedDNSNames(false) {
 		if parsedSANDNSNames[i].ParseError != nil {
-			return &lint.LintResult{Status: lint.NA}
+			unparsable = true
+			continue
 		}
 		if strings.HasPrefix(parsedSANDNSNames[i].ParsedDomain.SLD, "-") ||
 			strings.HasSuffix(parsedSANDNSNames[i].ParsedDomain.SLD, "-") {
 			return &lint.LintResult{Status: lint.Error}
 		}
+	}
+	if unparsable {
+		return &lint.LintResult{Status: lint.NA}
 	}
 	return &lint.LintResult{Status: lint.Pass}
 }
